@@ -74,6 +74,14 @@ int main(int argc, char** argv) {
         if (want("bson")) one(idx, c, "bson", [&](std::vector<uint8_t>& o) { bson::bson_bytes_encoder e(o); push(e, c["ev"]); });
         if (want("json")) one(idx, c, "json", [&](std::vector<uint8_t>& o) { std::string s; compact_json_string_encoder e(s); push(e, c["ev"]); o.assign(s.begin(), s.end()); });
         if (want("jsonpretty")) one(idx, c, "jsonpretty", [&](std::vector<uint8_t>& o) { std::string s; json_string_encoder e(s); push(e, c["ev"]); o.assign(s.begin(), s.end()); });
+        // the pretty encoder under layout options (every spacing of commas and colons x line splits x padding x line length, rotating with the case index):
+        // whatever the layout, the text must be RFC 8259 JSON denoting the pushed data (judged like "jsonpretty")
+        if (want("jsonpretty")) for (int k = 0; k < 3; ++k) one(idx, c, "jsonpretty", [&](std::vector<uint8_t>& o) {
+            size_t h = idx * 3 + (size_t)k; json_options op;
+            op.spaces_around_comma((spaces_option)(h % 4)).spaces_around_colon((spaces_option)((h / 4) % 4));
+            line_split_kind ls = (line_split_kind)((h / 16) % 3); op.object_array_line_splits(ls).array_array_line_splits((line_split_kind)((h / 48) % 3)).array_object_line_splits(ls).object_object_line_splits((line_split_kind)((h / 144) % 3));
+            op.pad_inside_array_brackets((h / 5) % 2 == 0).pad_inside_object_braces((h / 7) % 2 == 0).indent_size((uint8_t)(h % 5)).line_length_limit((h / 11) % 3 == 0 ? 8 : 120);
+            std::string s; json_string_encoder e(s, op); push(e, c["ev"]); o.assign(s.begin(), s.end()); });
     });
     mj::Value s = hz::rec("stat"); s.set("cases", (int64_t)ncases); hz::emit(s);
     return 0;
